@@ -449,7 +449,9 @@ static void mon_c12(ctx *c, lgraph *g)
     { int32 post2 = lattice_posterior(dag, ascale); if (post2 != post) vh_viol("posterior_not_repeatable", "lattice_posterior returned %d, then %d on the same lattice", post, post2); check_posteriors(g, dag, post2, unit, zero, "second_call:"); }
     /* N-best */
     {
-        hyp_iter_t *nb; int n = 0; int32 prev = 0; int limit = vh_tier ? 200 : 60, interleave = vh_chance(c->r, 0.3);
+        hyp_iter_t *nb; int n = 0; int32 prev = 0; int limit = vh_tier ? 200 : 60, interleave = vh_chance(c->r, 0.3), positive_links = 0;
+        for (i = 0; i < g->nl; ++i) if (g->l[i].ascr > 0) positive_links = 1;
+        if (positive_links) { vh_count("nbest_lists_over_lattices_with_positive_link_scores", 1); }
         vh_ctx("decoder_nbest");
         for (nb = decoder_nbest(c->d); nb; nb = hyp_iter_next(nb)) {
             int32 sc = 0; const char *h = hyp_iter_hyp(nb, &sc); seg_iter_t *si; char joined[4096]; size_t o = 0; int ok = 1, first = 1, any, u, pef = -1; char why[260] = "";
@@ -668,7 +670,7 @@ static void partial_cb(decoder_t *d, void *user, long samples_fed, long frames_r
 static void run(long i, vh_rng *r)
 {
     ctx c; vd_gram g; vd_audio a; vd_pattern p; vd_runinfo info; char sdesc[300], pdesc[200];
-    int lang = vh_chance(r, 0.12) ? VD_FR : VD_EN, beam_mode = -1, gkind = -1;
+    int lang = vh_chance(r, 0.12) ? VD_FR : VD_EN, beam_mode = -1, gkind = -1, own_d = 0, insertion_bonus = 0;
     memset(&c, 0, sizeof(c));
     vd_cfg_default(&c.cfg, lang);
     if (lang == VD_EN && vh_chance(r, 0.08)) c.cfg.samprate = 8000;
@@ -676,16 +678,35 @@ static void run(long i, vh_rng *r)
     if ((MON == M_C14 || MON == M_C03) && vh_chance(r, 0.15)) c.cfg.frate = VH_PICK(r, ((int[]){ 50, 200, 90, 60, 125, 150, 70 }));
     if ((MON == M_C01 || MON == M_C03) && vh_chance(r, 0.1)) { c.cfg.skip_tmat = vh_chance(r, 0.5) ? 2 : 1; vh_count("scenarios_with_skip_transitions", 1); }   /* Bakis topology: states can be skipped */
     c.frate = c.cfg.frate; c.r = r;
+    if ((MON == M_C14 || MON == M_C03) && vh_chance(r, 0.1)) {
+        /* the frame rate is changed on a live decoder: decoder_reinit_feat with the value set in place, or with a new configuration
+         * object; every time reported afterwards is in frames of the new rate */
+        int nf = VH_PICK(r, ((int[]){ 50, 80, 125, 200, 90 })); vd_cfg c2 = c.cfg; int rv;
+        if (nf == c.cfg.frate) nf = 100 + (c.cfg.frate == 100 ? 25 : 0);
+        c.d = vd_decoder_fresh(&c.cfg); own_d = 1;
+        if (!c.d) { vh_inconc("decoder_init failed"); return; }
+        c2.frate = nf;
+        vh_ctx("decoder_reinit_feat");
+        if (vh_chance(r, 0.5)) { config_set_int(decoder_config(c.d), "frate", nf); rv = decoder_reinit_feat(c.d, NULL); }
+        else rv = decoder_reinit_feat(c.d, vd_make_config(&c2));
+        if (rv != 0) { vh_inconc("decoder_reinit_feat refused frate %d", nf); decoder_free(c.d); return; }
+        c.cfg = c2; c.frate = nf; vh_count("frame_rate_changed_with_reinit_feat", 1);
+    } else
     c.d = vd_decoder(&c.cfg);
     if (!c.d) { vh_inconc("decoder_init failed"); return; }
     fe_get_input_size(decoder_fe(c.d), &c.fe_shift, &c.fe_size);
     decoder_set_cmn(c.d, "40,3,-1");   /* every case starts from the same channel-normalisation state */
     vd_search_random(r, &c.sp, beam_mode);
+    if (MON == M_C12 && vh_chance(r, 0.12)) {
+        /* insertion "penalties" above 1 are bonuses: link and path scores become positive, which nothing in the statement excludes */
+        if (vh_chance(r, 0.7)) c.sp.pip = VH_PICK(r, ((double[]){ 10.0, 100.0, 3.0 })); else c.sp.wip = VH_PICK(r, ((double[]){ 1e3, 1e5 }));
+        insertion_bonus = 1; vh_count("scenarios_with_insertion_bonus", 1);
+    }
     vd_search_apply(c.d, &c.sp);
     if (MON == M_C14 && vh_chance(r, 0.3)) { make_hostile_gram(&c, r, &g); vh_count("hostile_spelling_scenarios", 1); }
     else vd_gram_random(r, lang, gkind, MON == M_C01 ? 0.35 : 0.6, &g);
     c.g = &g;
-    vd_audio_make(r, lang, (MON & (M_C01 | M_C03)) ? -1 : 0, (MON & (M_C11 | M_C12)) ? (c.sp.beam_mode == 2 ? 8000 : 60000) : 0, &a);
+    vd_audio_make(r, lang, (MON & (M_C01 | M_C03)) ? -1 : 0, (MON & (M_C11 | M_C12)) ? ((c.sp.beam_mode == 2 || insertion_bonus) ? 8000 : 60000) : 0, &a);
     if (c.cfg.samprate == 8000) { long j; for (j = 0; j < a.n / 2; ++j) a.s[j] = (int16_t)(((long)a.s[2 * j] + a.s[2 * j + 1]) / 2); a.n /= 2; a.samprate = 8000; }
     c.a = &a;
     vd_pattern_random(r, &p, 1);
@@ -725,6 +746,7 @@ static void run(long i, vh_rng *r)
 out:
     vd_audio_free(&a);
     vd_gram_free(&g);
+    if (own_d) { vh_ctx("decoder_free"); decoder_free(c.d); }
 }
 
 static void teardown(void) { vd_drop_decoders(); }
